@@ -140,6 +140,14 @@ CHECKS = {
     note='Input terms are given in functional, fully quoted notation (trusted reader path). Not covered: random operator tables '
          '(implemented, switched off pending triage), rationals (no literal syntax), print/1 (absent in this build). KNOWN-FINDINGs '
          'K29, K31, K33.'),
+ 'C55': dict(
+    level='exploration',
+    technique='runtime monitoring: reference classifier of ISO 6.4 atom tokens + independent decoder of quoted text; exhaustive enumeration of short atoms',
+    text='Every atom of length 1-3 over a 22-character alphabet covering all lexical classes (11 154 atoms, enumerated '
+         'exhaustively), special atoms and random longer ones are written with writeq (quoted(true)) and write; the quoted/unquoted '
+         'decision must match the ISO token classes, quoted text must decode back to the atom, write must emit the raw characters; '
+         'write_canonical and ignore_ops(true) output of compound terms is compared with functional notation.',
+    note='ASCII atoms only are classified (non-ASCII left to the C15 round trip). Either quote-escaping style is accepted. K29b is a KNOWN-FINDING.'),
 }
 
 NOT_APPLICABLE_REASON_UNBUILT = ('check designed in DESIGN.md but not built/validated yet in this session; '
